@@ -830,4 +830,216 @@ theorem regionBatchDelete_get (R : Region) (keys : List Bytes) (m : Store)
     · simp [ht]
     · by_cases hk : k = a <;> simp [ht, hk]
 
+/-! ## termination of the forward loops once the layout stays constant -/
+
+theorem locate_snd_mem (L : Layout) (k : Bytes) (h : (locate L k).2 ≠ []) : (locate L k).2 ∈ L := by
+  induction L with
+  | nil => simp [locate] at h
+  | cons s L ih =>
+    simp only [locate] at h ⊢
+    split
+    · rename_i hs
+      simp only [hs, if_true] at h
+      exact List.mem_cons_of_mem _ (ih h)
+    · rename_i hs
+      simp only [hs, if_false] at h
+      split
+      · exact List.mem_cons_self ..
+      · rename_i h2
+        simp only [h2, if_false] at h
+        exact List.mem_cons_of_mem _ (ih h)
+
+/-- number of split points above `k`: the progress measure -/
+def above (L : Layout) (k : Bytes) : Nat := (L.filter fun s => decide (k < s)).length
+
+theorem above_lt (L : Layout) (k k' : Bytes) (hk : k < k') (hm : k' ∈ L) : above L k' < above L k := by
+  unfold above
+  induction L with
+  | nil => simp at hm
+  | cons s L ih =>
+    have hmono : (L.filter fun s => decide (k' < s)).length ≤ (L.filter fun s => decide (k < s)).length := by
+      clear ih hm
+      induction L with
+      | nil => simp
+      | cons a t iht =>
+        simp only [List.filter_cons]
+        by_cases h1 : k' < a
+        · have : k < a := by grind
+          simp [h1, this]; exact iht
+        · by_cases h2 : k < a <;> simp [h1, h2] <;> omega
+    rcases List.mem_cons.mp hm with h | h
+    · subst h
+      have h1 : ¬ k' < k' := List.lt_irrefl k'
+      simp only [List.filter_cons, h1, hk, decide_true, decide_false, if_true, List.length_cons]
+      simp; omega
+    · have := ih h
+      simp only [List.filter_cons]
+      by_cases h1 : k' < s
+      · have : k < s := by grind
+        simp [h1, this]; omega
+      · by_cases h2 : k < s <;> simp [h1, h2] <;> omega
+
+theorem scanLoop_const_terminates (m : Store) (f : KV → KV) (end_ : Bytes) (limit : Nat) (L : Layout) :
+    ∀ (n : Nat) (start : Bytes) (acc : List KV) (tr : STrace), above L start < n →
+      (scanLoop m f end_ limit (List.replicate n (some L)) start acc tr).isSome = true := by
+  intro n
+  induction n with
+  | zero => intro start acc tr h; omega
+  | succ n ih =>
+    intro start acc tr h
+    simp only [List.replicate_succ, scanLoop]
+    split
+    · split
+      · rfl
+      · rename_i he
+        apply ih
+        have hm := locate_snd_mem L start he
+        have hlt : start < (locate L start).2 := by
+          rcases (locate_spec L start).2 with h0 | h0
+          · exact absurd h0 he
+          · exact h0
+        have := above_lt L start _ hlt hm
+        omega
+    · rfl
+
+/-- Scan terminates for every layout sequence that eventually stays constant (with one served attempt per
+    region of the final layout still to come): arbitrary layouts and region errors before that. -/
+theorem scanLoop_eventually_const_terminates (m : Store) (f : KV → KV) (end_ : Bytes) (limit : Nat) (L : Layout)
+    (n : Nat) (hn : L.length < n) :
+    ∀ (pre : SScript) (start : Bytes) (acc : List KV) (tr : STrace),
+      (scanLoop m f end_ limit (pre ++ List.replicate n (some L)) start acc tr).isSome = true := by
+  intro pre
+  induction pre with
+  | nil =>
+    intro start acc tr
+    apply scanLoop_const_terminates
+    have : above L start ≤ L.length := List.length_filter_le _ _
+    omega
+  | cons e pre ih =>
+    intro start acc tr
+    cases e with
+    | none =>
+      simp only [List.cons_append, scanLoop]
+      split
+      · exact ih _ _ _
+      · rfl
+    | some L' =>
+      simp only [List.cons_append, scanLoop]
+      split
+      · split
+        · rfl
+        · exact ih _ _ _
+      · rfl
+
+theorem checksumLoop_const_terminates (m : Store) (end_ : Bytes) (L : Layout) :
+    ∀ (n : Nat) (start : Bytes) (acc : Checksum) (tr : STrace), above L start < n →
+      (checksumLoop m end_ (List.replicate n (some L)) start acc tr).isSome = true := by
+  intro n
+  induction n with
+  | zero => intro start acc tr h; omega
+  | succ n ih =>
+    intro start acc tr h
+    simp only [List.replicate_succ, checksumLoop]
+    split
+    · split
+      · rfl
+      · rename_i he
+        apply ih
+        have hm := locate_snd_mem L start he
+        have hlt : start < (locate L start).2 := by
+          rcases (locate_spec L start).2 with h0 | h0
+          · exact absurd h0 he
+          · exact h0
+        have := above_lt L start _ hlt hm
+        omega
+    · rfl
+
+theorem checksumLoop_eventually_const_terminates (m : Store) (end_ : Bytes) (L : Layout)
+    (n : Nat) (hn : L.length < n) :
+    ∀ (pre : SScript) (start : Bytes) (acc : Checksum) (tr : STrace),
+      (checksumLoop m end_ (pre ++ List.replicate n (some L)) start acc tr).isSome = true := by
+  intro pre
+  induction pre with
+  | nil =>
+    intro start acc tr
+    apply checksumLoop_const_terminates
+    have : above L start ≤ L.length := List.length_filter_le _ _
+    omega
+  | cons e pre ih =>
+    intro start acc tr
+    cases e with
+    | none =>
+      simp only [List.cons_append, checksumLoop]
+      split
+      · exact ih _ _ _
+      · rfl
+    | some L' =>
+      simp only [List.cons_append, checksumLoop]
+      split
+      · split
+        · rfl
+        · exact ih _ _ _
+      · rfl
+
+theorem deleteRangeLoop_stop (end_ : Bytes) (he : end_ ≠ []) (sc : SScript) (m : Store) (tr : STrace) :
+    (deleteRangeLoop end_ sc end_ m tr).isSome = true := by
+  have hc : fwdCond end_ end_ = false := by simp [fwdCond, he, List.lt_irrefl]
+  cases sc with
+  | nil => simp [deleteRangeLoop, hc]
+  | cons e rest => cases e <;> simp [deleteRangeLoop, hc]
+
+theorem deleteRangeLoop_const_terminates (end_ : Bytes) (L : Layout) :
+    ∀ (n : Nat) (start : Bytes) (m : Store) (tr : STrace), above L start < n →
+      (deleteRangeLoop end_ (List.replicate n (some L)) start m tr).isSome = true := by
+  intro n
+  induction n with
+  | zero => intro start m tr h; omega
+  | succ n ih =>
+    intro start m tr h
+    simp only [List.replicate_succ, deleteRangeLoop]
+    split
+    · by_cases hA : (locate L start).2 ≠ [] ∧ (end_ = [] ∨ (locate L start).2 < end_)
+      · simp only [if_pos hA, if_neg hA.1]
+        apply ih
+        have hm := locate_snd_mem L start hA.1
+        have hlt : start < (locate L start).2 := by
+          rcases (locate_spec L start).2 with h0 | h0
+          · exact absurd h0 hA.1
+          · exact h0
+        have := above_lt L start _ hlt hm
+        omega
+      · simp only [if_neg hA]
+        split
+        · rfl
+        · rename_i he
+          exact deleteRangeLoop_stop end_ he _ _ _
+    · rfl
+
+theorem deleteRangeLoop_eventually_const_terminates (end_ : Bytes) (L : Layout) (n : Nat) (hn : L.length < n) :
+    ∀ (pre : SScript) (start : Bytes) (m : Store) (tr : STrace),
+      (deleteRangeLoop end_ (pre ++ List.replicate n (some L)) start m tr).isSome = true := by
+  intro pre
+  induction pre with
+  | nil =>
+    intro start m tr
+    apply deleteRangeLoop_const_terminates
+    have : above L start ≤ L.length := List.length_filter_le _ _
+    omega
+  | cons e pre ih =>
+    intro start m tr
+    cases e with
+    | none =>
+      simp only [List.cons_append, deleteRangeLoop]
+      split
+      · exact ih _ _ _
+      · rfl
+    | some L' =>
+      simp only [List.cons_append, deleteRangeLoop]
+      split
+      · generalize (if (locate L' start).2 ≠ [] ∧ (end_ = [] ∨ (locate L' start).2 < end_) then (locate L' start).2 else end_) = aE
+        split
+        · rfl
+        · exact ih _ _ _
+      · rfl
+
 end CGV.RawKV
